@@ -1,10 +1,17 @@
 """C03 - one start, one truthful end, exceptions pass through (exactly-once/truthful-end tape checker)."""
 
+from vf import sched
+
+sched.install()  # before eliot is imported (part 'concreg'); without an active schedule the replaced factories behave like the originals
+
+import itertools
 import random
 
 from eliot import add_destinations, register_exception_extractor, remove_destination, start_action
+from eliot import _errors as _eliot_errors  # only handed to sched.instrument(): the module whose statements are switch points
 
 from vf import excs, gen
+from vf.forkrun import call_in_fork
 from vf.gen import json_equal
 from vf.interp import ANYTEXT, Interp
 from vf.runner import h
@@ -20,7 +27,17 @@ RULE = ("each forked case registers extractors (healthy or raising) on a random 
         "({} plus exactly one eliot:traceback when it raises); start fields only on start, success fields only on succeeded; repeated "
         "finish adds nothing; actions failing inside an extractor keep their own extractor's fields; after an interrupt (non-Exception from a destination) during an "
         "extractor-failure report later failures still get their fields; the object leaving the block is the raised object. non-trivial = failed with a non-Exception class, or "
-        "MRO lookup depth >=2, or repeated finish; distinct by (exception class, lookup depth, style, nesting depth, registration set)")
+        "MRO lookup depth >=2, or repeated finish; distinct by (exception class, lookup depth, style, nesting depth, registration set). "
+        "part 'concreg': 2-3 threads call register_exception_extractor concurrently for different classes of a small hierarchy (application classes with single and multiple inheritance, "
+        "OSError / LookupError / BaseException families; some threads register two classes, some fail an action of their own right after their registration returned, one may fail actions "
+        "with a class registered before the threads started; in a share of the scenarios two threads register the same class), each schedule in a fresh process under the line-granular "
+        "scheduler with switch points at every statement of eliot/_errors.py and between a call and the use of its result: for every priority order ALL one-preemption schedules plus sampled "
+        "2-3-preemption ones. Oracle: once all registering calls returned, an action failing with each class of the hierarchy (at nesting depth 1-2) has one start and one failed end carrying "
+        "module.Class, str(exc) and exactly the fields of the extractor registered for the nearest class in the exception's MRO (either extractor where two threads registered the same class); a failure "
+        "inside a thread must carry the fields of a registration made earlier by that thread or before the threads started unless another thread registers a nearer class at the same time (then either); "
+        "the object leaving the block is the raised one; a logical deadlock is a violation, any other abandoned schedule is INCONCLUSIVE")
+EXHAUSTIVE_NOTE = "concreg: all one-preemption schedules (statement boundaries and call returns inside eliot/_errors.py) for every priority order of each generated thread set"
+ENABLE_CONCREG = True
 ASSUMPTIONS = ["extractors return dicts of JSON-native values", "extractors raise Exception subclasses"]
 BATCH_MATRIX = 1
 
@@ -49,6 +66,10 @@ def plan(tier, seed):
             for style in (gen.ACT_STYLES if tier == "thorough" else ["with", "ctx_finish", "run_finish", "log_call", "ActionType"]):
                 specs.append({"part": "matrix", "seed": seed, "i": j, "exc": name, "depth": depth, "style": style, "tier": tier})
                 j += 1
+    if ENABLE_CONCREG:
+        # appended: the cases above keep their indices (and hence their random streams)
+        for j3 in range(12 if tier == "quick" else 120):
+            specs.append({"part": "concreg", "seed": seed, "i": j3, "tier": tier})
     return specs
 
 
@@ -167,9 +188,325 @@ def part_interrupt(spec):
     return res
 
 
+# --------------------------------------------------------------------------- extractors registered concurrently
+
+
+class PlugA(Exception):
+    pass
+
+
+class PlugASub(PlugA):
+    pass
+
+
+class PlugADeep(PlugASub):
+    pass
+
+
+class PlugB(Exception):
+    pass
+
+
+class PlugBSub(PlugB):
+    pass
+
+
+class PlugAB(PlugASub, PlugB):
+    """MRO: PlugAB, PlugASub, PlugA, PlugB, Exception: a lost registration for PlugASub / PlugA shows as another extractor's fields."""
+
+
+class PlugOS(OSError):
+    """Falls back on eliot's built-in errno extractor when nothing nearer is registered."""
+
+
+class PlugLookup(KeyError):
+    pass
+
+
+class PlugBase(BaseException):
+    pass
+
+
+class PlugBaseSub(PlugBase):
+    pass
+
+
+class PlugPre(Exception):
+    """Registered before the threads start; never registered by a thread."""
+
+
+class PlugPreSub(PlugPre):
+    pass
+
+
+CONC = {c.__name__: c for c in (PlugA, PlugASub, PlugADeep, PlugB, PlugBSub, PlugAB, PlugOS, PlugLookup, PlugBase, PlugBaseSub, PlugPre, PlugPreSub,
+                                 OSError, FileNotFoundError, LookupError, KeyError, Exception, BaseException, ValueError)}
+# classes a thread may register
+CONC_REGISTRABLE = ["PlugA", "PlugASub", "PlugB", "PlugBSub", "PlugAB", "PlugOS", "PlugLookup", "PlugBase", "OSError", "LookupError", "KeyError",
+                    "Exception", "BaseException"]
+# classes an action fails with once every thread is done (everything instantiable; each registrable class and a subclass of it)
+CONC_FINAL = ["PlugA", "PlugASub", "PlugADeep", "PlugB", "PlugBSub", "PlugAB", "PlugOS", "PlugLookup", "PlugBase", "PlugBaseSub", "PlugPre", "PlugPreSub",
+              "OSError", "FileNotFoundError", "LookupError", "KeyError", "ValueError"]
+
+
+def conc_instance(name, tag):
+    cls = CONC[name]
+    if issubclass(cls, OSError):
+        return cls(28, "disk full %s" % tag)
+    return cls("failure %s" % tag)
+
+
+def conc_fields(tag, cls_name):
+    """What the extractor registered under `tag` for class `cls_name` returns for an exception."""
+    return {"ext_tag": tag, "ext_for": cls_name}
+
+
+def gen_concreg(rng, i):
+    """workers: list of {"kind": reg | reg_fail | fail, "regs": [[class, tag], ...], "fails": [[class, nesting depth], ...]}"""
+    n = 2 if i % 3 else 3
+    same = i % 4 == 3  # two threads register the same class: afterwards either extractor is the registered one
+    pool = list(CONC_REGISTRABLE)
+    rng.shuffle(pool)
+    if i % 2:
+        # related classes registered by different threads: the nearest one must win afterwards
+        fam = rng.choice([["PlugA", "PlugASub", "PlugAB"], ["PlugB", "PlugBSub", "PlugAB"], ["OSError", "PlugOS", "Exception"],
+                          ["LookupError", "KeyError", "PlugLookup"], ["BaseException", "Exception", "PlugBase"], ["PlugA", "PlugB", "PlugASub"]])
+        pool = fam + [x for x in pool if x not in fam]
+    workers = []
+    kinds = ["reg", rng.choice(["reg", "reg_fail"])] + ([rng.choice(["reg", "reg_fail", "fail"])] if n == 3 else [])
+    for j, kind in enumerate(kinds):
+        w = {"kind": kind, "regs": [], "fails": []}
+        if kind in ("reg", "reg_fail"):
+            for r in range(2 if (kind == "reg" and rng.random() < 0.35) else 1):
+                name = pool.pop(0)
+                w["regs"].append([name, "W%d/%s" % (j, name)])
+        if kind == "reg_fail":
+            # fails with the class it has just registered itself, or a subclass of it
+            own = w["regs"][-1][0]
+            subs = [x for x in CONC_FINAL if issubclass(CONC[x], CONC[own])]
+            w["fails"].append([rng.choice(subs) if subs and rng.random() < 0.6 else (own if own in CONC_FINAL else "ValueError"), rng.choice([1, 1, 2])])
+        if kind == "fail":
+            for r in range(rng.choice([1, 2])):
+                w["fails"].append([rng.choice(["PlugPre", "PlugPreSub"]), rng.choice([1, 2])])
+        workers.append(w)
+    if same:
+        first = workers[0]["regs"][0][0]
+        workers[1]["regs"][0] = [first, "W1/%s" % first]
+        if workers[1]["kind"] == "reg_fail":
+            subs = [x for x in CONC_FINAL if issubclass(CONC[x], CONC[first])]
+            workers[1]["fails"] = [[rng.choice(subs) if subs else "ValueError", 1]]
+    return {"workers": workers, "pre": [["PlugPre", "pre/PlugPre"]] + ([["PlugB", "pre/PlugB"]] if rng.random() < 0.3 else [])}
+
+
+def conc_options(cls, must, may):
+    """Acceptable extractor-field sets for an exception of class `cls`: walk the MRO; a class registered by a call that has returned
+    (must: class -> tags, several when concurrent calls registered the same class) decides; a class that another thread may be
+    registering right now (may) is acceptable as well but does not end the walk."""
+    out = []
+    for klass in cls.__mro__:
+        name = klass.__name__
+        if CONC.get(name) is not klass:
+            continue
+        for tag in may.get(name, ()):
+            out.append(conc_fields(tag, name))
+        if name in must:
+            for tag in must[name]:
+                out.append(conc_fields(tag, name))
+            return out
+        if klass is OSError:
+            out.append({"errno": 28})  # eliot's built-in extractor
+            return out
+    out.append({})
+    return out
+
+
+def concreg_once(plan_, sc):
+    """Fresh process: the threads register (and fail actions) under the given schedule; afterwards the main thread fails one action per
+    class. Returns the scheduler's statistics and the problems the oracle found."""
+    sched.instrument([_eliot_errors], post_call=True)
+    tape = Tape()
+    rec = Recorder(tape, "rec")
+    add_destinations(rec)
+    problems = []
+    notes = {"register_raised": 0, "judged": 0, "thread_failures": 0}
+    expectations = []  # (action_type, class name, acceptable field sets, description)
+
+    def extractor(tag, cls_name):
+        def ex(e):
+            return conc_fields(tag, cls_name)
+        return ex
+
+    def fail_action(label, cls_name, depth, who):
+        exc = conc_instance(cls_name, label)
+        got = None
+        try:
+            with start_action(action_type=label + ":outer") if depth == 2 else _Null():
+                with start_action(action_type=label):
+                    raise exc
+        except BaseException as e:
+            if isinstance(e, sched.SchedAbort):
+                raise
+            got = e
+        if got is not exc:
+            problems.append("%s: %s raised inside the action, %r left the block" % (who, cls_name, got))
+
+    for name, tag in sc["pre"]:
+        register_exception_extractor(CONC[name], extractor(tag, name))
+    pre = {}
+    for name, tag in sc["pre"]:
+        pre[name] = [tag]
+    all_regs = {}
+    for j, w in enumerate(sc["workers"]):
+        for name, tag in w["regs"]:
+            all_regs.setdefault(name, []).append((j, tag))
+
+    def worker(j, w):
+        def run():
+            mine = dict((k, list(v)) for k, v in pre.items())
+            for name, tag in w["regs"]:
+                try:
+                    register_exception_extractor(CONC[name], extractor(tag, name))
+                except sched.SchedAbort:
+                    raise
+                except BaseException as e:
+                    notes["register_raised"] += 1
+                    notes.setdefault("register_errors", []).append("W%d registering %s: %r" % (j, name, e))
+                # registered by this thread now; another thread registering the same class at the same time may come before or after
+                others = [t for (jj, t) in all_regs.get(name, []) if jj != j]
+                mine[name] = [tag] + others
+            may = {}
+            for name, lst in all_regs.items():
+                tags = [t for (jj, t) in lst if jj != j]
+                if tags:
+                    may[name] = tags  # (also a class registered before the threads started: the other thread's call replaces that extractor)
+            for k, (cls_name, depth) in enumerate(w["fails"]):
+                label = "thread:W%d:%d" % (j, k)
+                expectations.append((label, cls_name, conc_options(CONC[cls_name], mine, may), depth,
+                                     "in thread W%d after its own register_exception_extractor call(s) %s returned, while the other threads were registering" % (j, [r[0] for r in w["regs"]])))
+                notes["thread_failures"] += 1
+                fail_action(label, cls_name, depth, "thread W%d" % j)
+        return run
+
+    workers = {"W%d" % j: worker(j, w) for j, w in enumerate(sc["workers"])}
+    st, errs = sched.run_schedule(plan_, workers, timeout=60.0)
+    out = {"stats": {"events": st["events"], "fired": st["fired"], "aborted": st["aborted"], "deadlock": st["deadlock"], "trace": st["trace"]},
+           "errors": {k: repr(v) for k, v in errs.items()}, "notes": notes, "problems": problems}
+    if st["aborted"] or st["deadlock"]:
+        return out
+    # ---- every registering call has returned: one failing action per class, judged against the complete registration set
+    final = dict((k, list(v)) for k, v in pre.items())
+    for name, lst in all_regs.items():
+        final[name] = [t for (_, t) in lst]
+    for k, cls_name in enumerate(CONC_FINAL):
+        label = "final:%d" % k
+        depth = 2 if k % 3 == 0 else 1
+        expectations.append((label, cls_name, conc_options(CONC[cls_name], final, {}), depth, "after all register_exception_extractor calls had returned"))
+        fail_action(label, cls_name, depth, "main thread")
+    remove_destination(rec)
+    # ---- oracle over the tape
+    msgs = tape.msgs("rec")
+    regs_text = "; ".join("W%d: %s" % (j, ", ".join(r[0] for r in w["regs"])) for j, w in enumerate(sc["workers"]) if w["regs"])
+    for label, cls_name, options, depth, when in expectations:
+        cls = CONC[cls_name]
+        for at in ([label, label + ":outer"] if depth == 2 else [label]):
+            starts = [m for m in msgs if m.get("action_type") == at and m.get("action_status") == "started"]
+            ends = [m for m in msgs if m.get("action_type") == at and m.get("action_status") in ("succeeded", "failed")]
+            if len(starts) != 1 or len(ends) != 1:
+                problems.append("action %s failing with %s has %d start and %d end messages" % (at, cls_name, len(starts), len(ends)))
+                continue
+            e = ends[0]
+            notes["judged"] += 1
+            if e.get("action_status") != "failed" or e.get("exception") != excs.qualname(cls) or e.get("reason") != str(conc_instance(cls_name, label)):
+                problems.append("action %s failing with %s: end message says %r / %r / %r" % (at, cls_name, e.get("action_status"), e.get("exception"), e.get("reason")))
+                continue
+            got = {k: v for k, v in e.items() if k.startswith("ext_") or k == "errno"}
+            if got not in options:
+                nearest = options[-1]
+                problems.append("extractors registered concurrently (%s): an action failing with %s %s logged the extractor fields %r, expected %s" % (
+                    regs_text, cls_name, when, got,
+                    ("those of the extractor registered for the nearest class in its MRO, %r" % (nearest,)) if len(options) == 1 else ("one of %r" % (options,))))
+    out["tape"] = [{k: v for k, v in m.items() if k not in ("timestamp", "task_uuid")} for m in msgs if m.get("action_status") == "failed"][:8]
+    return out
+
+
+class _Null(object):
+    def __enter__(self):
+        return None
+
+    def __exit__(self, *a):
+        return None
+
+
+def part_concreg(spec):
+    res = {"evals": 0, "nontrivial": [], "counters": {}, "violations": [], "sets": {"concreg_interleavings": [], "concreg_preemption_lines": []}}
+    rng = random.Random("%s:C03:concreg:%d" % (spec["seed"], spec["i"]))
+    sc = gen_concreg(rng, spec["i"])
+    names = ["W%d" % j for j in range(len(sc["workers"]))]
+    reg_only = set("W%d" % j for j, w in enumerate(sc["workers"]) if w["kind"] == "reg")
+    c = res["counters"]
+    c["concreg_scenarios"] = 1
+
+    def execute(plan_, label):
+        kind, data = call_in_fork(lambda: concreg_once(plan_, sc), timeout=120)
+        res["evals"] += 1
+        c["concreg_schedules_run"] = c.get("concreg_schedules_run", 0) + 1
+        if kind in ("timeout", "died"):
+            res["inconclusive"] = "concreg child %s" % kind
+            return None
+        problems = []
+        if kind != "ok":
+            problems.append("concreg run failed: %s" % str(data)[-400:])
+            st = None
+        else:
+            st = data["stats"]
+            if st["deadlock"]:
+                problems.append("threads registering exception extractors / failing actions deadlocked: %s" % st["deadlock"])
+            elif st["aborted"]:
+                res["inconclusive"] = "schedule abandoned: %s" % st["aborted"]
+                return st
+            else:
+                for k, e in data["errors"].items():
+                    problems.append("thread %s raised %s" % (k, e))
+                problems.extend(data["problems"])
+                c["concreg_failures_judged"] = c.get("concreg_failures_judged", 0) + data["notes"]["judged"]
+                c["concreg_failures_inside_threads"] = c.get("concreg_failures_inside_threads", 0) + data["notes"]["thread_failures"]
+                c["concreg_register_calls_that_raised"] = c.get("concreg_register_calls_that_raised", 0) + data["notes"]["register_raised"]
+                res["sets"]["concreg_interleavings"].append(h(st["trace"]))
+                for nm, k, loc in st["fired"]:
+                    res["sets"]["concreg_preemption_lines"].append(loc)
+                    if nm in reg_only:
+                        # everything such a thread does under the scheduler happens inside its register_exception_extractor call(s)
+                        c["concreg_preemptions_inside_register"] = c.get("concreg_preemptions_inside_register", 0) + 1
+                if st["fired"]:
+                    res["nontrivial"].append(h(["concreg", sc, st["trace"]]))
+                if res.get("sample") is None and label == "1-preemption" and spec["i"] == 0:
+                    res["sample"] = {"part": "concreg", "scenario": sc, "plan": plan_, "failed_ends": data.get("tape")}
+        if problems and len(res["violations"]) < 3:
+            res["violations"].append({"msg": problems[0], "mech": None, "detail": {"part": "concreg", "scenario": sc, "plan": plan_, "problems": problems[:5], "label": label,
+                                                                                 "register_errors": (data.get("notes", {}).get("register_errors") if kind == "ok" else None)}})
+        return st
+
+    base = None
+    for order in itertools.permutations(names):
+        base = execute({"order": list(order), "changes": []}, "baseline")
+        if base is None:
+            return res
+        for p in sched.one_preemption_plans(list(order), base["events"]):
+            execute(p, "1-preemption")
+            if len(res["violations"]) >= 3:
+                return res
+    for p in sched.sampled_plans(rng, names, base["events"], 12 if spec["tier"] == "quick" else 60):
+        execute(p, "sampled")
+        if len(res["violations"]) >= 3:
+            break
+    return res
+
+
 def run_case(spec):
     if spec["part"] == "interrupt":
         return part_interrupt(spec)
+    if spec["part"] == "concreg":
+        return part_concreg(spec)
     rng = random.Random("%s:C03:%s:%d" % (spec["seed"], spec["part"], spec["i"]))
     res = {"evals": 1, "nontrivial": [], "counters": {}, "violations": [], "sets": {"exception_classes_failed": [], "lookup_depths": []}}
     # ---- extractor registrations
@@ -373,4 +710,11 @@ def finalize(agg, tier):
     c = agg["counters"]
     if c.get("failed_actions", 0) < 200 or c.get("extractor_raises", 0) < 10:
         return "too few failed actions / raising extractors observed"
+    if ENABLE_CONCREG:
+        if c.get("concreg_schedules_run", 0) < 100 or c.get("concreg_failures_judged", 0) < 1000:
+            return "part 'concreg' (extractors registered concurrently) ran too few schedules / judged too few failed actions"
+        if c.get("concreg_preemptions_inside_register", 0) < 10:
+            return "fewer than 10 preemptions landed inside a register_exception_extractor call (part 'concreg')"
+        if c.get("concreg_failures_inside_threads", 0) < 10:
+            return "part 'concreg': no thread failed an action of its own while others were registering"
     return None
